@@ -96,7 +96,7 @@ def check_valid(assumptions, goal, timeout_ms=10000, want_model=False, config=EM
     # budgets are z3 resource units (deterministic, independent of machine load: about 2M units per
     # second on this machine); the wall-clock timeout is only a backstop
     s.set("rlimit", int(timeout_ms * 2000))
-    s.set("timeout", int(timeout_ms * 8))
+    s.set("timeout", int(timeout_ms * 4))
     for a in assumptions:
         s.add(a)
     s.add(z3.Not(goal))
